@@ -206,6 +206,10 @@ class FixedList(T):
     def fresh(self, ctx, name):
         return [self.elem.fresh(ctx, '%s[%d]' % (name, i)) for i in range(self.n)]
 
+    def from_prefix(self, ctx, rid, k):
+        """field of a list element: a fixed number of items, each an uninterpreted function of the element's position"""
+        return [self.elem.from_prefix(ctx, '%s[%d]' % (rid, i), k) for i in range(self.n)]
+
 
 class Const(T):
     def __init__(self, v):
